@@ -7,5 +7,4 @@ git -C /repo worktree add -q $WT HEAD || exit 2
 cd /verif
 VERIF_REPO_SRC=$WT/src ./check $ID $TIER > $WT.log 2>&1; rc=$?
 echo "check $ID $TIER exit=$rc"; grep -E "^VIOLATION|^  signature=" $WT.log | head -8 | cut -c1-400; tail -1 $WT.log | cut -c1-250
-git -C /verif checkout -q evidence/$ID.json 2>/dev/null
 git -C /repo worktree remove --force $WT; rm -f $WT.log
